@@ -11,7 +11,7 @@ Answer:  model=<tree|ERR:syntax|ERR:fuel|ERR:unmodelled> spec=<tree|ERR> trig=<f
   rel : the model's tree is a relaxed derivation whose yield is the input (what `pratt_derives` proves), the
         reference parser's tree is an EBNF derivation with that yield, and if it passes the table's guards the
         model returns it (what `pratt_complete` proves) — run-time cross-checks, 0 = something is inconsistent.
-trees:  k.n | _ | (G<sym> e) | (P<sym> x) | (B<sym> l r) | (T<sym> l n) | (X<sym> l e)
+trees:  k.n | _ | (G<sym> e) | (P<sym> x) | (B<sym> l r) | (T<sym> l n) | (X<sym> l e) | (A<sym> l f a)
 -/
 import EPV.Proto
 import EPV.Gen.C04Tables
@@ -40,6 +40,7 @@ partial def showTree (rows : List Row) : Tree → String
   | .bin o l r => s!"(B{symOf rows o} {showTree rows l} {showTree rows r})"
   | .typed o l n => s!"(T{symOf rows o} {showTree rows l} #{n})"
   | .post o _ l e => s!"(X{symOf rows o} {showTree rows l} {showTree rows e})"
+  | .arrow o l f a => s!"(A{symOf rows o} {showTree rows l} {showTree rows f} {showTree rows a})"
 
 def showErr : Err → String
   | .syntax => "ERR:syntax"
@@ -105,7 +106,6 @@ def answer (line : String) : String :=
         let ss := match s with | some t => showTree V.rows t | none => "ERR"
         let trig : List String :=
           (if trigF04b V.rows V.impl V.ep s toks then ["F04b"] else []) ++
-          (if trigF04j V.rows toks then ["F04j"] else []) ++
           (match s with
            | some t =>
              (if v == 10 && trigF04a V.rows t then ["F04a"] else []) ++
